@@ -11,6 +11,7 @@ from ..num import wire, unwire, canon
 from ..pools import RecPool
 
 STREAMS = ["histories", "exhaustive-small"]
+REGENERATE_SRC = True
 RULE = ("histories of 1..60 operations (demand writes, child supply / utilisation / allocation / demand changes, children "
         "setting their own demand to 0, released children garbage-collected, adjustment cycles driven through run() "
         "under trio's MockClock) over 0..6 initial children and factories of varying child demand, with ties in the "
